@@ -227,7 +227,8 @@ def check_pack(kind, name, steps, pack_after, gc, clock, cases):
         if pack_after >= 0:
             T_tid = r.tids[pack_after]
             T = pack_time_after(T_tid)
-            later = r.tids[pack_after + 1:]
+            # (a step that changes nothing commits no transaction: its 'tid' is the previous one)
+            later = sorted(set(t for t in r.tids[pack_after + 1:] if t > T_tid))
         else:
             T_tid = None
             T = pack_time_after(st.iterator().__next__().tid) - 5 if kind == 'file' else 1.6e9
